@@ -186,6 +186,11 @@ func (sess *session) delRef(ctx context.Context, fid Fid,
 	ref.Lock()
 	defer ref.Unlock()
 	if ref.Ent == nil {
+		if ref.File == nil {
+			// only reserved by a walk or attach that has failed in the
+			// meantime: the fid was never bound
+			return ErrUnknownfid
+		}
 		return nil
 	}
 
